@@ -309,3 +309,7 @@ def run(ctx: Context) -> None:  # noqa: F811
     plumb.plumbing(ctx, 'C10.R8', ['ssl_context', 'proxy_ssl_context', 'http1', 'http2', 'origin', 'remote_origin', 'proxy_origin', 'uds', 'local_address'])
     ctx.rep.rule('C10.R9', 'a URL / Origin rebuilt from another one copies scheme, host and port from the same-named components of the same object')
     plumb.derived_identity(ctx, 'C10.R9')
+    from . import backend
+
+    ctx.rep.rule('C10.R10', 'the default async backend is a pure delegation: host, port, local address, socket options and timeout reach the running library backend unchanged')
+    backend.auto_delegation(ctx, 'C10.R10')
